@@ -85,7 +85,7 @@ fn do_payload_checks_case(error_path: bool) {
     kani::assume((run > 15) == error_path);
     // word-aligned payloads only: a format-2 payload whose length is not a multiple of 10 (after cutting 10..15
     // padding bytes) trips debug_assert!s in chunkify_payload in debug builds (known finding, see nopanic harness)
-    kani::assume(v0 || error_path || (if run > 9 { (len - run) % 10 == 0 } else { true }));
+    kani::assume(v0 || error_path || (if run > 9 { (len - run) % 10 == 0 } else { len % 10 <= run }));
     unsafe { CHECK_BASE = p.as_ptr() as usize; CHECK_STRIDE = if v0 { 16 } else { 10 }; }
     let pos: u64 = kani::any();
     kani::assume(pos < (1 << 62));
